@@ -1,0 +1,9 @@
+//go:build verif
+
+package vhost
+
+import "net/http"
+
+// VerifTransport exposes the reverse proxy's backend transport to the verification harness
+// (observation of the dial address = connection pool key, idle connection control).
+func (rp *HTTPReverseProxy) VerifTransport() *http.Transport { return rp.transport }
